@@ -19,9 +19,12 @@ package main
 //            both families, CSV/JSON, Summary/Detail, repeated; directory parsed back (shared with
 //            the saved-runs suite, see suite_savedruns.go).
 //
-// Two streams: clean scenario names (the alphabet of the theorems) and adversarial names /
-// ids (reported separately in the histogram as `adv …`; direct checks of the property are
-// reported for the clean stream only, the adversarial stream is compared with the model).
+// Two streams: clean scenario names (the alphabet `Clean` of the older theorems) and adversarial names /
+// ids (counted separately in the histogram as `clean …` / `adv …`).  Since the two round-3 repairs (labels
+// and Summary.Id / FileNameSafeId are computed from the id's own ending, i.e. from its LAST " Solution (")
+// the property's clauses hold for EVERY scenario name: the direct checks are reported (Ctx.Fail) in BOTH
+// streams.  The audit's three witnesses (`trial (1/1)`, `As-Is baseline`, `Best Solution` with three runs)
+// are fixed cases that run first in every tier.
 
 import (
 	"encoding/json"
@@ -49,7 +52,10 @@ const (
 	sigMapOrder  = "naming:file-name-depends-on-map-order"
 	sigDupLabels = "naming:duplicate-labels"
 	sigJsonPanic = "naming:json-set-name-panic"
+	sigRunFiles  = "naming:run-files-collide"
 	callsPerMap  = 64
+
+	predOneSummaryPerRun = "C12: for every finished run the explorer writes one summary: the summary files of the runs of one scenario are pairwise different"
 )
 
 // ---------------------------------------------------------------- string transport
@@ -195,6 +201,21 @@ func imageOfKey(sum solutionset.Summary, key string) keyImage {
 	return keyImage{id: one.Id(), safe: one.FileNameSafeId(), js: jsonSetName(one)}
 }
 
+func solutionsetSummaryOf(key string) solutionset.Summary {
+	return solutionset.Summary{key: solution.Summary{Id: "x"}}
+}
+
+// runFileIds: every FileNameSafeId the summary of run r of R of scenario `name` can get (its image over the map's keys).
+func (nm *namer) runFileIds(fam, name string, r, R, n int) map[string]bool {
+	keys := nm.realKeys(fam, realRunId(name, r, R), n)
+	sum := nm.realSummary(keys)
+	out := map[string]bool{}
+	for _, k := range keys {
+		out[solutionset.Summary{k: sum[k]}.FileNameSafeId()] = true
+	}
+	return out
+}
+
 // ---------------------------------------------------------------- names
 
 // opNames executes one `names` line; adv marks the adversarial stream.
@@ -209,10 +230,8 @@ func opNames(c *Ctx, nm *namer, fam, name string, r, R, n int, adv bool) {
 	}
 	if len(sum) != len(keys) {
 		// two solutions share an id: one overwrote the other in the map
-		if !adv {
-			c.Fail("C12: one summary row per solution (as-is + each member)", "naming:solution-ids-collide",
-				fmt.Sprintf("%d solutions but %d map entries for %q", len(keys), len(sum), rid), []string{op})
-		}
+		c.Fail("C12: one summary row per solution (as-is + each member)", "naming:solution-ids-collide",
+			fmt.Sprintf("%d solutions but %d map entries for %q", len(keys), len(sum), rid), []string{op})
 		c.Stat(stream + " names: colliding solution ids")
 	}
 	var sb strings.Builder
@@ -286,27 +305,53 @@ func opNames(c *Ctx, nm *namer, fam, name string, r, R, n int, adv bool) {
 	if len(files) > 1 || len(ids) > 1 || len(jss) > 1 {
 		nontrivial = true
 		c.Stat(stream + " names: file/set name depends on the key yielded")
-		if !adv {
-			c.Fail("C12: file name and set name are a deterministic function of scenario name, run number and output type", sigMapOrder,
-				fmt.Sprintf("summary of run %q (%s, %d members): FileNameSafeId over the keys = %q, Id over the keys = %q, JSON set name over the keys = %q; seen in %d calls on the one map: files %v",
-					rid, fam, n, files, ids, jss, callsPerMap, sortedKeys(seenSafe)), []string{op})
-		}
+		c.Fail("C12: file name and set name are a deterministic function of scenario name, run number and output type", sigMapOrder,
+			fmt.Sprintf("summary of run %q (%s, %d members): FileNameSafeId over the keys = %q, Id over the keys = %q, JSON set name over the keys = %q; seen in %d calls on the one map: files %v",
+				rid, fam, n, files, ids, jss, callsPerMap, sortedKeys(seenSafe)), []string{op})
 	}
 	if dupLabel != "" {
 		nontrivial = true
 		c.Stat(stream + " names: duplicate labels")
-		if !adv {
-			c.Fail("C12: row labels are unique within a summary", sigDupLabels, dupLabel, []string{op})
-		}
+		c.Fail("C12: row labels are unique within a summary", sigDupLabels, dupLabel, []string{op})
 	}
 	if hasPanic {
 		nontrivial = true
 		c.Stat(stream + " names: JSON set name panics for some key")
-		if !adv {
-			c.Fail("C12: writing never fails for some executions and succeeds for others of the same run", sigJsonPanic,
-				fmt.Sprintf("summary of run %q (%s, %d members): deriveSetNameFor panics (index out of range on a nil regexp match) when the map yields key %q first; results over the keys: %q; panics for every key (JSON saving of this run always fails): %v",
-					rid, fam, n, keys[0], jss, allPanic), []string{op})
+		c.Fail("C12: writing never fails for some executions and succeeds for others of the same run", sigJsonPanic,
+			fmt.Sprintf("summary of run %q (%s, %d members): deriveSetNameFor panics (index out of range on a nil regexp match) when the map yields key %q first; results over the keys: %q; panics for every key (JSON saving of this run always fails): %v",
+				rid, fam, n, keys[0], jss, allPanic), []string{op})
+	}
+	// one summary per run: whichever key each map yields, the summary file of this run is not the summary file of
+	// another run of the same scenario (the later save would overwrite the earlier one).  Compared with every other
+	// run for R <= 12, else with runs 1 and R.
+	others := []int{1, R}
+	if R <= 12 {
+		others = others[:0]
+		for o := 1; o <= R; o++ {
+			others = append(others, o)
 		}
+	}
+	compared := 0
+	for _, o := range others {
+		if o == r || o < 1 || o > R {
+			continue
+		}
+		compared++
+		otherFiles := nm.runFileIds(fam, name, o, R, n)
+		for _, f := range files {
+			if otherFiles[f] {
+				nontrivial = true
+				c.Stat(stream + " names: two runs of one scenario share a summary file")
+				c.Fail(predOneSummaryPerRun, sigRunFiles,
+					fmt.Sprintf("scenario %q (%s, %d runs): run %d (id %q) and run %d (id %q) both write their summary to %q (FileNameSafeId + \"-Summary.<type>\"): the later one overwrites the earlier one",
+						name, fam, R, r, rid, o, realRunId(name, o, R), f+"-Summary.<type>"),
+					[]string{op, fmt.Sprintf("names %s %s %d %d %d", fam, pct(name), o, R, n)})
+				break
+			}
+		}
+	}
+	if compared > 0 {
+		c.Stat(fmt.Sprintf("%s names: summary file compared with that of %s other runs", stream, nbucket(compared)))
 	}
 	if R > 1 || n > 1 || nontrivial {
 		c.Nontrivial(op)
@@ -479,6 +524,22 @@ func advString(r *Rng) string {
 	return sb.String()
 }
 
+// witnessNames: scenario names that collide with the texts the naming functions look for
+var witnessNames = []string{"trial (1/1)", "As-Is baseline", "Best Solution", "Run 3/4 test", "A Solution (As-Is)", "B Solution (1/1) x",
+	"Solution (", "x Solution (2/3) Solution (", "a/b (2/3)", "up/../and/..", "two\nlines Solution (x)\nmore", "tab\tname (1/1) As-Is 7/8"}
+
+func uniqInts(xs ...int) []int {
+	seen := map[int]bool{}
+	var out []int
+	for _, x := range xs {
+		if !seen[x] {
+			seen[x] = true
+			out = append(out, x)
+		}
+	}
+	return out
+}
+
 func pickRuns(r *Rng) (int, int) {
 	R := 1
 	switch r.Intn(6) {
@@ -545,6 +606,27 @@ func suiteNaming(c *Ctx) {
 	// Fork(): util.go's NewRng(seed) streams of consecutive seeds are the same splitmix sequence shifted by a
 	// draw or two; forking through one mixed output decorrelates the seeds
 	r := c.Rng.Fork().Fork()
+	// ---- stream 0: the audit's witnesses against the code before the round-3 repairs (fixed; every tier):
+	//   `trial (1/1)`    single family: both rows were labelled Optimised
+	//   `As-Is baseline` multi family, set size 3: all four rows were labelled As-Is
+	//   `Best Solution`  three runs: every run's summary was `Best-Summary.<type>` (all three runs are compared in
+	//                    each of the three `names` evaluations)
+	opNames(c, nm, "single", "trial (1/1)", 1, 1, 1, true)
+	opNames(c, nm, "multi", "As-Is baseline", 1, 1, 3, true)
+	for rr := 1; rr <= 3; rr++ {
+		opNames(c, nm, "multi", "Best Solution", rr, 3, 2, true)
+		opNames(c, nm, "single", "Best Solution", rr, 3, 1, true)
+	}
+	for _, name := range witnessNames {
+		for _, R := range []int{1, 3, 11} {
+			for _, rr := range uniqInts(1, R/2+1, R) {
+				opNames(c, nm, "single", name, rr, R, 1, true)
+				for _, n := range []int{0, 1, 3} {
+					opNames(c, nm, "multi", name, rr, R, n, true)
+				}
+			}
+		}
+	}
 	// ---- stream 1: clean names
 	// systematic core: the paper's situations, every small (R, n)
 	for _, name := range []string{"X", "Kirkpatrick - Black Box", "Test 7", "é 日本"} {
